@@ -4,7 +4,7 @@ import z3
 
 from .values import *  # noqa
 from .state import St, CArr
-from .engine import Exec, zint, INT_CTYPES
+from .engine import Exec, zint, INT_CTYPES, UNSIGNED_CTYPES
 from . import api
 
 
@@ -179,6 +179,9 @@ class ExecS(Exec):
                 bits = INT_CTYPES[ct]
                 self.oblige(f"c_int_range.{target.id}", "overflow", st,
                             z3.And(-(2 ** (bits - 1)) <= v, v < 2 ** (bits - 1)), node)
+            if ct in UNSIGNED_CTYPES and self.cx.c.c_int_bits and is_z3(v) and z3.is_int(v) and self.cx.depth == 0:
+                self.oblige(f"c_uint_range.{target.id}", "overflow", st,
+                            z3.And(0 <= v, v < 2 ** UNSIGNED_CTYPES[ct]), node)
             if ct in ("double", "float") and is_z3(v) and z3.is_int(v):
                 v = z3.ToReal(v)
             lt = self.cx.c.local_types.get(target.id) if self.cx.depth == 0 else None
